@@ -20,6 +20,9 @@ Only the ion-association clause has parts whose truth is in the shape of the cod
                is 1 + 2 OSMOT/OSUM (Pitzer) resp. 1 + OSMOT ln10/OSUM (SIT), the water activity is exp(-OSUM COSMOT/55.50837), and
                OSUM - the total solute molality - is accumulated as + M[i] over the list that the model's make_lists routine
                fills with EVERY solute present (the push that is not conditional on the charge class), not over a sub-list
+  C16.etheta   Pitzer unsymmetrical mixing: in ETHETAS  E-theta = zj zk (J(xjk) - J(xjj)/2 - J(xkk)/2) / (4 I)  and
+               E-theta' = zj zk (J'(xjk) - J'(xjj)/2 - J'(xkk)/2) / (8 I^2) - E-theta / I  with x_ab = 6 A0 sqrt(I) za zb, as exact
+               rational identities over the opaque integrals J, J'; each (J, J') pair is produced by the call receiving its own x
   C16.present  Pitzer: pitzer_make_lists may list a species that is not in the current model (the MacInnes reference ion is listed
                under `ICON == TRUE && i == IC`), so every place that loads a molality M[i] from species::lm tests species::in:
                otherwise a solution without that ion inherits a phantom molality from an earlier calculation
@@ -86,7 +89,99 @@ def symbol_of(n):
     return None
 
 
+def etheta_rule(P, R):
+    """Pitzer unsymmetrical mixing (Pitzer 1975, eqs A1-A3 as coded by Harvie/Plummer): for ions j, k of like sign and different
+    charge  E-theta = zj zk / (4 I) [ J(xjk) - J(xjj)/2 - J(xkk)/2 ],  E-theta' = zj zk / (8 I^2) [ J'(xjk) - J'(xjj)/2 - J'(xkk)/2 ]
+    - E-theta / I  with  x_ab = 6 A0 sqrt(I) za zb.  Decided as exact rational identities; the J / J' integrals (ETHETA_PARAMS) are
+    opaque but each must be evaluated at its own argument (J_ab, J'_ab come from the call that receives x_ab)."""
+    RULE = "C16.etheta"
+    R.rule(RULE, "ETHETAS: E-theta and E-theta' are the defining combinations of J and J' at x_jk, x_jj, x_kk; each J pair comes from its own argument", minimum=8)
+    f = P.one("Phreeqc::ETHETAS")
+    where = dict(file=f["file"], function=f["q"])
+
+    def unstar(n):
+        if not T.is_node(n):
+            return n
+        if n[0] == "Un" and n[2] == "*" and T.strip_casts(n[3])[0] == "Ref":
+            r = T.strip_casts(n[3])
+            return ["Ref", n[1], "local", r[3], "double"]
+        return [unstar(c) if isinstance(c, list) else c for c in n]
+    REF = {"etheta": "ZZ * (JAY_XJK - JAY_XJJ / 2 - JAY_XKK / 2) / (4 * I)",
+           "ethetap": "ZZ * (JPRIME_XJK - JPRIME_XJJ / 2 - JPRIME_XKK / 2) / (8 * I * I) - etheta / I",
+           "ZZ": "ZJ * ZK", "XJK": "XCON * ZZ", "XJJ": "XCON * ZJ * ZJ", "XKK": "XCON * ZK * ZK", "XCON": "6 * A0 * sqrt(I)"}
+    found = {}
+    for x in T.walk(f["body"]):
+        if x[0] == "Bin" and x[2] == "=":
+            l = T.strip_casts(x[3])
+            if l[0] == "Un" and l[2] == "*" and T.strip_casts(l[3])[0] == "Ref" and T.strip_casts(l[3])[3] in ("etheta", "ethetap"):
+                found.setdefault(T.strip_casts(l[3])[3], []).append((x[1], x[4]))
+        if x[0] == "Decl":
+            for d in x[2]:
+                if d[0] in REF and T.is_node(d[2]):
+                    found.setdefault(d[0], []).append((x[1], d[2]))
+    for name, ref in REF.items():
+        w = RF.parse(ref.replace("sqrt(I)", "SQRTI"))
+        cands = []
+        for line, rhs in found.get(name, []):
+            try:
+                got = _with_sqrt_symbol(unstar(rhs), "SQRTI")
+            except (RF.NotRational, ZeroDivisionError):
+                continue
+            if not got.symbols():
+                continue            # the initial `= 0.0`
+            cands.append((line, got, rhs))
+        if not cands:
+            R.anchor_missing(RULE, "ETHETAS: no rational definition of `%s` found (renamed?)" % name)
+            continue
+        for line, got, rhs in cands:
+            if got.same(w):
+                R.ok(RULE, name, "equals %s" % ref)
+            elif RF.unknown_reference_symbols(w, f["body"], ignore=("SQRTI", "etheta")):
+                R.anchor_missing(RULE, "ETHETAS: reference for `%s` names %s which no longer occur (renamed?)" % (name, RF.unknown_reference_symbols(w, f["body"], ignore=("SQRTI", "etheta"))))
+            else:
+                R.violation(RULE, name, "`%s = %s` is not the defining expression %s: E-theta' is no longer d(E-theta)/dI, so the activity coefficients (through F) and the "
+                            "osmotic coefficient (through E-theta + I E-theta') of mixtures with unequal like-signed charges stop satisfying Gibbs-Duhem" % (name, T.text(rhs)[:120], ref),
+                            line=line, **where)
+    # each (J, J') pair is produced by the call that receives its own x
+    n = 0
+    for c in T.calls(f["body"]):
+        if T.callee_name(c) != "ETHETA_PARAMS" or len(c[4]) != 3:
+            continue
+        a = [T.strip_casts(z) for z in c[4]]
+        if not all(z[0] == "Ref" for z in a):
+            continue
+        n += 1
+        x, j, jp = a[0][3], a[1][3], a[2][3]
+        suffix = x[1:]
+        if j.endswith("_X" + suffix) and jp.endswith("_X" + suffix) and j != jp:
+            R.ok(RULE, "ETHETA_PARAMS(%s)" % x, "%s, %s" % (j, jp))
+        else:
+            R.violation(RULE, "ETHETA_PARAMS(%s)" % x, "the integrals evaluated at %s are stored in %s, %s" % (x, j, jp), line=c[1], **where)
+    if n != 3:
+        R.anchor_missing(RULE, "ETHETAS: expected three ETHETA_PARAMS evaluations (x_jk, x_jj, x_kk), found %d" % n)
+
+
+def _with_sqrt_symbol(tree, name):
+    def conv(n):
+        n = T.strip_casts(n)
+        if n[0] == "Call" and T.callee_name(n) == "sqrt":
+            return RF.Rat.sym(name)
+        if n[0] == "Lit":
+            from fractions import Fraction
+            return RF.Rat.const(Fraction(str(n[3]).rstrip("fFlL")))
+        if n[0] in ("Ref", "Member"):
+            return RF.Rat.sym(symbol_of(n))
+        if n[0] == "Un" and n[2] == "-":
+            return -conv(n[3])
+        if n[0] == "Bin" and n[2] in "+-*/":
+            a, b = conv(n[3]), conv(n[4])
+            return a + b if n[2] == "+" else a - b if n[2] == "-" else a * b if n[2] == "*" else a / b
+        raise RF.NotRational(T.text(n)[:40])
+    return conv(tree)
+
+
 def run(P, R, tier):
+    etheta_rule(P, R)
     R.undecided += ["values of the Debye-Hueckel constants and of the ionic strength at which the formulas are evaluated",
                     "exchange and surface activity conventions (gflag 4, 6)", "Pitzer and SIT excess-energy sums, Gibbs-Duhem consistency, water activity / osmotic coefficient"]
     water_rule(P, R)
